@@ -4,7 +4,7 @@ import vlib
 import syntax
 from vlib import capp, clist, cstr, cbool, copt, cN, cospan
 
-HEADER_DERIVE = """From DarlingModel Require Import Base.Prelude Base.Syntax Err.ErrTree Conv.Targets Shape.Shape Options.Resolve Exec.DeriveObs Exec.ConvCase Exec.DeriveCase.
+HEADER_DERIVE = """From DarlingModel Require Import Base.Prelude Base.Syntax Err.ErrTree Conv.Targets Shape.Shape Options.Resolve Exec.DeriveObs Exec.ConvCase Spec.C10 Exec.DeriveCase.
 From DarlingModel Require Usage.Usage.
 Local Open Scope string_scope."""
 C_TRAIT = {"FromMeta": "DFromMeta", "FromDeriveInput": "DFromDeriveInput", "FromField": "DFromField", "FromVariant": "DFromVariant",
